@@ -368,13 +368,15 @@ impl Ord for Integer {
             (false, false) => { // i.e., both <= 0
                 match self.0.len().cmp(&other.0.len()) {
                     cmp::Ordering::Equal => {
-                        for (l, r) in self.0.iter().zip(other.0.iter()) {
-                            match l.cmp(r) {
-                                cmp::Ordering::Equal => { }
-                                cmp => return cmp.reverse()
+                        // Same length two’s complement: the first octet
+                        // carries the sign, the remaining ones compare as
+                        // unsigned.
+                        match (self.0[0] as i8).cmp(&(other.0[0] as i8)) {
+                            cmp::Ordering::Equal => {
+                                self.0[1..].cmp(&other.0[1..])
                             }
+                            cmp => cmp
                         }
-                        cmp::Ordering::Equal
                     }
                     cmp => cmp.reverse()
                 }
